@@ -77,6 +77,22 @@ PF_CFG['extern'] = {k: v for k, v in PF_CFG['extern'].items() if v is not None}
 PF_ROOTS = ['parent_cache::find']
 PC_ROOTS = ['parent_cache::populate_unit']
 
+AI_CFG = {
+    'names': {'attr_iterator::move': 'attr_iterator_move', 'attr_iterator::callback': 'attr_iterator_callback', 'attr_iterator::end': 'attr_iterator_end',
+              '_ZN13attr_iteratorC1EP9Dwarf_Die': 'attr_iterator_ctor_die', '_ZN13attr_iteratorppEv': 'attr_iterator_preinc',
+              '_ZN13attr_iteratorppEi': 'attr_iterator_postinc', '_ZN13attr_iteratordeEv': 'attr_iterator_deref',
+              '_ZNK13attr_iteratoreqERKS_': 'attr_iterator_eq', '_ZNK13attr_iteratorneERKS_': 'attr_iterator_ne'},
+    'types': {r'std::iterator<.*>': 'empty_base', r'(struct )?Dwarf': 'void', r'(struct )?Dwarf_CU': 'void', r'(struct )?Dwarf_Abbrev': 'void',
+              r'Dwarf_Off': 'unsigned long', r'ptrdiff_t': 'long'},
+    'types_are_records': {r'std::iterator<.*>': True},
+    'record_ctypes': ['empty_base'],
+    'types_prelude': '#include "at_model.h"\n',
+    'bodies_prelude': '#include "at_model2.h"\n',
+    'extern': {'__assert_fail': 'verif_assert_fail_libc', 'abort': 'verif_abort', r'dwarf_getattrs': 'm_dwarf_getattrs', r'throw_libdw.*': 'm_throw_libdw'},
+}
+AI_ROOTS = ['_ZN13attr_iteratorC1EP9Dwarf_Die', '_ZN13attr_iteratorppEv', '_ZN13attr_iteratorppEi', '_ZN13attr_iteratordeEv', '_ZNK13attr_iteratorneERKS_']
+
+
 
 def jobs(tier):
     inc = [OUT, os.path.join(vlib.VERIF, 'props'), HERE]
@@ -98,6 +114,11 @@ def jobs(tier):
              note='parent_cache::find twice on one cache, any two DIEs of every forest shape of <= %d DIEs (%d shapes enumerated, offsets symbolic)' % (fn, nforests)),
          Job('parent_find_control', [os.path.join(HERE, 'pf_harness.c'), os.path.join(OUT, 'pf_bodies.c')], 'hb_parent_find_control', includes=inc,
              defines=['NN=%d' % fn, 'VERIF_CONTROL'], kind='control', expect='fail', unwind=nforests + 4, timeout=600, cbmc_args=['--object-bits', '13']),
+         Job('bounded_attr_iterator', [os.path.join(HERE, 'ai_harness.c'), os.path.join(OUT, 'ai_bodies.c')], 'hb_attr_iterator', includes=inc, kind='bounded',
+             unwind=5, timeout=300, cbmc_args=A, inputs=['d'],
+             note='attr_iterator (dwit.hh) over a model of dwarf_getattrs: a DIE with 0..3 attributes of arbitrary names and forms'),
+         Job('attr_iterator_control', [os.path.join(HERE, 'ai_harness.c'), os.path.join(OUT, 'ai_bodies.c')], 'hb_attr_iterator_control', includes=inc,
+             defines=['VERIF_CONTROL'], kind='control', expect='fail', unwind=5, timeout=300, cbmc_args=A),
          Job('all_dies_control', isrc, 'hb_all_dies_control', includes=inc, defines=D + ['VERIF_CONTROL'], kind='control', expect='fail', unwind=9,
              timeout=600, cbmc_args=A),
          Job('parent_table_control', psrc, 'hb_parent_table_control', includes=inc, defines=['NN=%d' % pn, 'VERIF_CONTROL'], kind='control', expect='fail',
@@ -111,14 +132,15 @@ ASSUMPTIONS = [
     'libdw is replaced by a forest model: DIEs numbered in section order with a parent array and ascending offsets; a unit DIE has no sibling; unit headers sit a fixed 11 bytes before their unit DIE',
     'std::vector<Dwarf_Off> / std::vector<pair<Dwarf_Off,Dwarf_Off>> are small inline arrays; copying an iterator object is a struct copy',
     'parent_cache::find: the cache (std::map keyed by (Dwarf, unit offset)) and std::lower_bound are modelled (props/c02/pf_model.h); the comparator lambda is not lowered; every forest shape of <= 3 DIEs and every ordered pair of DIEs enumerated, offsets symbolic',
+    'attr_iterator: dwarf_getattrs is modelled with elfutils\' documented resume protocol (props/c02/at_model2.h): visits attributes from an offset, stops where the callback says so and returns that offset, 1 when done',
     'BOUNDED: iterator: forests of <= 5 DIEs (6 in thorough), any shape, symbolic; parent table: every unit tree shape of <= 5 DIEs (6 in thorough) enumerated concretely, offsets symbolic',
-    'SLICE of C02: the DIE producers of builtin-dw.cc (per-input numbering), attribute iteration, `label`/`form`/`offset` words, root_cache and everything elfutils does are NOT covered (parent_cache::find is, bounded); abbreviations claiming children for childless DIEs are a libdw matter (dwarf_child contract)',
+    'SLICE of C02: the DIE producers of builtin-dw.cc (per-input numbering), `label`/`form`/`offset` words, root_cache and everything elfutils does are NOT covered (parent_cache::find is, bounded); abbreviations claiming children for childless DIEs are a libdw matter (dwarf_child contract)',
 ]
 EXPLANATION = 'Bounded check of the section-order DIE iterator and the parent table on the real code over a libdw model; see DESIGN.md section 4 C02.'
 
 
 def spec_files():
-    return [os.path.join(HERE, f) for f in ('dwit_harness.c', 'pc_harness.c', 'pf_harness.c', 'dw_model.h', 'dw_model2.h', 'pf_model.h')]
+    return [os.path.join(HERE, f) for f in ('dwit_harness.c', 'pc_harness.c', 'pf_harness.c', 'ai_harness.c', 'dw_model.h', 'dw_model2.h', 'pf_model.h', 'at_model.h', 'at_model2.h')]
 
 
 def forests(nmax):
@@ -182,6 +204,8 @@ def prepare(tier):
     b = vlib.extract('pc', 'libzwerg/cache.cc', PC_CFG, PC_ROOTS, OUT)
     write_trees(5 if tier == 'quick' else 6)
     c = vlib.extract('pf', 'libzwerg/cache.cc', PF_CFG, PF_ROOTS, OUT)
+    ai = vlib.extract('ai', 'libzwerg/dwit.cc', AI_CFG, AI_ROOTS, OUT)
+    a.report['functions'] += ai.report['functions']
     b.report['functions'] += [f for f in c.report['functions'] if f['c_name'] == 'parent_cache_find']
     write_forests(3)
     return {'unit': 'libzwerg/dwit.cc (all_dies_iterator, cu_iterator), libzwerg/cache.cc (parent_cache::populate_unit)', 'functions': a.report['functions'] + b.report['functions']}
